@@ -527,3 +527,8 @@ CHECKS["C14"]["text"] += (
     " Definitions of type 'remote' whose format and location are those of a "
     "local file are a kind of their own: never followed below a network "
     "hop.")
+CHECKS["C05"]["text"] += (
+    " The lattice tables also exist with the volume as first column (event "
+    "abscissa scaling with wr^3); every lattice case compares a global with "
+    "a per-event temperature; the recorded laws run at channel widths 20, "
+    "30 and 40 um and include the pixelation correction.")
